@@ -55,22 +55,23 @@ structure RawProj where
   tasks : List RawTask := []
   deriving Repr, Inhabited
 
-/-- effective (own or inherited) resource attributes, computed top-down -/
-structure EffRes where
-  eff : Option Rat
-  zone : Option (List (Int × Int))
-  hours : Option Hours
-  shift : Option Hours
-  leaves : Option Intervals
-  deriving Inhabited
+/-- top-down inheritance of an optional attribute: own value if given, else the parent's effective value
+    (`PropertyTreeNode.inheritAttributes`; parents precede children) -/
+def inheritOpt {α : Type} (parents : List (Option Nat)) (own : List (Option α)) : Array (Option α) :=
+  (parents.zip own).foldl (fun (acc : Array (Option α)) po =>
+    acc.push (match po.2 with
+      | some v => some v
+      | none => po.1.bind (fun i => (acc[i]?).join))) #[]
 
-def elabRes (rs : List RawRes) : Array EffRes :=
-  rs.foldl (fun (acc : Array EffRes) r =>
-    let p : Option EffRes := r.parent.bind (fun i => acc[i]?)
-    let inh {α} (own : Option α) (f : EffRes → Option α) : Option α :=
-      match own with | some v => some v | none => p.bind f
-    acc.push { eff := inh r.eff (·.eff), zone := inh r.zone (·.zone), hours := inh r.hours (·.hours),
-               shift := inh r.shift (·.shift), leaves := inh r.leaves (·.leaves) }) #[]
+/-- inheritance of the `depends` list: own list if non-empty, else the parent's effective list -/
+def inheritDeps (parents : List (Option Nat)) (own : List (List Dep)) : Array (List Dep) :=
+  (parents.zip own).foldl (fun (acc : Array (List Dep)) po =>
+    acc.push (if po.2.isEmpty then (po.1.bind (fun i => acc[i]?)).getD [] else po.2)) #[]
+
+/-- inheritance of a flag that is set once some ancestor sets it -/
+def inheritFlag (parents : List (Option Nat)) (own : List Bool) : Array Bool :=
+  (parents.zip own).foldl (fun (acc : Array Bool) po =>
+    acc.push (po.2 || (po.1.bind (fun i => acc[i]?)).getD false)) #[]
 
 structure EffTask where
   effort : Option Rat
@@ -83,15 +84,17 @@ structure EffTask where
   deriving Inhabited
 
 def elabTasks (ts : List RawTask) : Array EffTask :=
-  ts.foldl (fun (acc : Array EffTask) t =>
-    let p : Option EffTask := t.parent.bind (fun i => acc[i]?)
-    let inh {α} (own : Option α) (f : EffTask → Option α) : Option α :=
-      match own with | some v => some v | none => p.bind f
-    acc.push { effort := inh t.effort (·.effort), alloc := inh t.alloc (·.alloc),
-               deps := if t.deps.isEmpty then (p.map (·.deps)).getD [] else t.deps,
-               prio := inh t.prio (·.prio), start := inh t.start (·.start),
-               milestone := t.milestone || (p.map (·.milestone)).getD false,
-               forward := inh t.mode (·.forward) }) #[]
+  let par := ts.map (·.parent)
+  let effort := inheritOpt par (ts.map (·.effort))
+  let alloc := inheritOpt par (ts.map (·.alloc))
+  let deps := inheritDeps par (ts.map (·.deps))
+  let prio := inheritOpt par (ts.map (·.prio))
+  let start := inheritOpt par (ts.map (·.start))
+  let ms := inheritFlag par (ts.map (·.milestone))
+  let fwd := inheritOpt par (ts.map (·.mode))
+  (List.range ts.length).toArray.map (fun i =>
+    { effort := (effort.getD i none), alloc := (alloc.getD i none), deps := deps.getD i [], prio := prio.getD i none,
+      start := start.getD i none, milestone := ms.getD i false, forward := fwd.getD i none })
 
 /-- dependencies of the task and of every enclosing container (`getAllDependencies`) -/
 def allDepsOf (ts : Array RawTask) (eff : Array EffTask) : Nat → Nat → List Dep
@@ -117,33 +120,41 @@ structure Elab where
   cal : CalEnv
   rcal : Array ResCal
 
-def elaborate (p : RawProj) : Elab :=
-  let er := elabRes p.res
-  let et := elabTasks p.tasks
-  let rawT := p.tasks.toArray
-  let nT := p.tasks.length
-  let days := if nT == 0 then 0 else
-    (if ((List.range nT).filter (fun t => (childrenOf p.tasks t).isEmpty)).isEmpty then 0 else horizonDays p.tasks et)
-  let stop := max p.stop (p.start + days * 86400)
-  let size := ceilDiv (stop - p.start) p.G + 1
-  let cal : CalEnv := { start := p.start, G := p.G, size := size, gvac := p.gvac, gleaves := p.gleaves }
-  let rcal : Array ResCal := er.map (fun x =>
-    { zone := x.zone, hours := (match x.shift with | some h => some h | none => x.hours), leaves := x.leaves.getD [] })
-  -- limit ids: resources first, then tasks, in declaration order
-  let resLim := p.res.foldl (fun (acc : List (List Nat) × Nat) r =>
+/-- tasks with their pinned dates made relative to the project start -/
+def relTasks (p : RawProj) : List RawTask :=
+  p.tasks.map (fun t => { t with start := t.start.map (· - p.start), stop := t.stop.map (· - p.start) })
+
+/-- per-resource calendars: zone, hours (shift hours win over own hours) and leaves, each inherited -/
+def resCals (rs : List RawRes) : Array ResCal :=
+  let par := rs.map (·.parent)
+  let zone := inheritOpt par (rs.map (·.zone))
+  let hours := inheritOpt par (rs.map (·.hours))
+  let shift := inheritOpt par (rs.map (·.shift))
+  let leaves := inheritOpt par (rs.map (·.leaves))
+  (List.range rs.length).toArray.map (fun i =>
+    { zone := zone.getD i none,
+      hours := (match shift.getD i none with | some h => some h | none => hours.getD i none),
+      leaves := (leaves.getD i none).getD [] })
+
+/-- date-free part of the environment -/
+def resDs (rs : List RawRes) : Array ResD :=
+  let eff := inheritOpt (rs.map (·.parent)) (rs.map (·.eff))
+  let resLim := rs.foldl (fun (acc : List (List Nat) × Nat) r =>
       (acc.1 ++ [(List.range r.limits.length).map (· + acc.2)], acc.2 + r.limits.length)) ([], 0)
-  let taskLim := p.tasks.foldl (fun (acc : List (List Nat) × Nat) t =>
-      (acc.1 ++ [(List.range t.limits.length).map (· + acc.2)], acc.2 + t.limits.length)) ([], resLim.2)
-  let limits : Array LimitD :=
-    ((p.res.flatMap (·.limits)) ++ (p.tasks.flatMap (·.limits))).toArray.map
-      (fun l => { weekly := l.weekly, value := l.value, res := l.res })
-  let resD : Array ResD := (p.res.zipIdx).toArray.map (fun (r, i) =>
-    { parent := r.parent, leaf := !(p.res.any (fun c => c.parent == some i)),
-      eff := (match (er.getD i default).eff with | some v => if v == 0 then 1 else v | none => 1),
+  (rs.zipIdx).toArray.map (fun (r, i) =>
+    { parent := r.parent, leaf := !(rs.any (fun c => c.parent == some i)),
+      eff := (match eff.getD i none with | some v => if v == 0 then 1 else v | none => 1),
       limits := resLim.1.getD i [] })
-  let taskD : Array TaskD := (p.tasks.zipIdx).toArray.map (fun (t, i) =>
+
+def taskDs (nResLimits : Nat) (ts : List RawTask) : Array TaskD :=
+  let et := elabTasks ts
+  let rawT := ts.toArray
+  let nT := ts.length
+  let taskLim := ts.foldl (fun (acc : List (List Nat) × Nat) t =>
+      (acc.1 ++ [(List.range t.limits.length).map (· + acc.2)], acc.2 + t.limits.length)) ([], nResLimits)
+  (ts.zipIdx).toArray.map (fun (t, i) =>
     let x := et.getD i default
-    let ch := childrenOf p.tasks i
+    let ch := childrenOf ts i
     { parent := t.parent, leaf := ch.isEmpty, effort := x.effort.getD 0,
       hasAlloc := (match x.alloc with | some (a, b) => !(a.isEmpty && b.isEmpty) | none => false),
       alloc := (x.alloc.map (·.1)).getD [], alt := (x.alloc.map (·.2)).getD [],
@@ -152,12 +163,37 @@ def elaborate (p : RawProj) : Elab :=
       start := x.start, startProvided := t.start.isSome, stop := t.stop,
       milestone := x.milestone, forward := x.forward.getD true, explicitMode := t.mode.isSome,
       limits := taskLim.1.getD i [], children := ch })
+
+/-- relative project end after the horizon extension -/
+def stopRelOf (p : RawProj) : Int :=
+  let ts := relTasks p
+  let et := elabTasks ts
+  let nT := ts.length
+  let days := if nT == 0 then 0 else
+    (if ((List.range nT).filter (fun t => (childrenOf ts t).isEmpty)).isEmpty then 0 else horizonDays ts et)
+  max (p.stop - p.start) (days * 86400)
+
+/-- The scheduler environment works with times *relative to the project start* (`env.start = 0`);
+    only the calendar functions look at absolute instants (`cal.start = p.start`).  Reported dates are
+    `p.start +` the relative ones (`Elab.abs`). -/
+def elaborate (p : RawProj) : Elab :=
+  let stopRel := stopRelOf p
+  let size := ceilDiv stopRel p.G + 1
+  let cal : CalEnv := { start := p.start, G := p.G, size := size, gvac := p.gvac, gleaves := p.gleaves }
+  let rcal := resCals p.res
+  let limits : Array LimitD :=
+    ((p.res.flatMap (·.limits)) ++ (p.tasks.flatMap (·.limits))).toArray.map
+      (fun l => { weekly := l.weekly, value := l.value, res := l.res })
   let env : Env := {
-    G := p.G, start := p.start, stop := stop, size := size, projAlap := p.projAlap,
+    G := p.G, start := 0, stop := stopRel, size := size, projAlap := p.projAlap,
     onShift := fun r i => onShiftAt cal (rcal.getD r {}) i,
     projWork := projWorkAt cal, dayIdx := dayIdxAt cal, weekIdx := weekIdxAt cal,
     leaveMark := fun r n => leaveMarkedAt cal (rcal.getD r {}) n,
-    res := resD, limits := limits, tasks := taskD }
+    res := resDs p.res, limits := limits,
+    tasks := taskDs ((p.res.map (·.limits.length)).sum) (relTasks p) }
   { env := env, cal := cal, rcal := rcal }
+
+/-- absolute instant of a relative one -/
+def Elab.abs (p : RawProj) (d : Int) : Int := p.start + d
 
 end SP
